@@ -53,6 +53,43 @@ SPECS = [
          fields={"data": DATA}, params={"time": "Int"}, ret="Val", calls={"self._unpack": "id"}, props=["C08", "C09"]),
 ]
 
+SCHED_COMMON = dict(
+    heap=True,
+    classes={"IInput": "isInput", "IOutput": "isOutput", "IAdapter": "isAdapter", "NoDependencyAdapter": "isNoDep",
+             "ITimeDelayAdapter": "isDelay", "NoBranchAdapter": "isNoBranch", "ITimeComponent": "isTimeComp"},
+    attrs={"source": ("source", "Obj"), "needs_push": ("needsPush", "Bool"), "needs_pull": ("needsPull", "Bool"),
+           "is_static": ("isStatic", "Bool"), "time": ("time", "Int"), "next_time": ("nextTime", "Int"),
+           "targets": ("targets", "List[Obj]")},
+    methods={"with_delay": ("withDelay", "Int")},
+)
+
+DEPS = "Dict[Obj,Tuple[Int,Bool]]"
+CHAIN = "Dict[Obj,Opt[Tuple[Int,Bool]]]"
+
+SPECS += [
+    # ---- schedule.py : the dependency walk and the recursive selection (C01 C02 C04 C13 C20) ---------------------
+    dict(lean="find_dependencies", path="schedule.py", qual="_find_dependencies", group="Sched",
+         params={"component": "Obj", "target_time": "Int"}, ignore_params=["output_owners"], ret=DEPS,
+         locals={"deps": DEPS},
+         consts={"component.inputs.items()": ("(List.map (fun i => ((), i)) (h.inputs component))", "List[Tuple[Unit,Obj]]")},
+         subscript_maps={"output_owners": ("owner", "Obj")},
+         fuel={"isinstance(inp, IInput)": "lean:(h.size + 1)"},
+         props=["C01", "C02", "C04", "C13", "C20"], **SCHED_COMMON),
+    dict(lean="update_recursive", path="schedule.py", qual="Composition._update_recursive", group="Sched",
+         params={"comp": "Obj", "chain": CHAIN, "target_time": "Opt[Int]"}, ret="Opt[Obj]",
+         mut_params=["chain"], recursive=True,
+         consts={"chain or {}": ("chain", CHAIN)},
+         conds={"comp.status != ComponentStatus.FINISHED": "(h.finished comp = false)"},
+         drop_assign=["joined"], drop_calls=["comp.update"],
+         subscript_maps={"self._output_owners": ("owner", "Obj")},
+         calls={"_find_dependencies": {"lean": "find_dependencies", "args": [0, 2], "argtypes": ["Obj", "Int"],
+                                       "ret": DEPS, "heap": True},
+                "self._update_recursive": {"lean": "update_recursive", "args": [0, 1, 2],
+                                           "argtypes": ["Obj", CHAIN, "Opt[Int]"], "defaults": {"2": "none"},
+                                           "ret": "Opt[Obj]", "heap": True, "rec": True, "updates": ["chain"]}},
+         props=["C01", "C02", "C04", "C20"], **SCHED_COMMON),
+]
+
 
 def by_group():
     g = {}
